@@ -309,3 +309,60 @@ def _semantic(chk, src):
                        where=fclose.where, instance=inst, how="PE on a model file system")
     chk.floor("store attempts on read-only / closed EKOs", n, 50)
     chk.floor("close() of read-only / closed EKOs", n_close, 6)
+    # ---- how an EKO gets its permissions: every way of opening an existing one without asking for write access -------------------
+    from ..pe import ClassRef
+
+    fs = fsmodel.FS()
+    pe = PE(src)
+    fsmodel.install(pe, fs)
+
+    def metadata(path):
+        m = Obj(mdc)
+        m.attrs.update(origin=(Fraction(2), 4), xgrid="XG", _path=path, version="0", data_version=3)
+        return m
+
+    pe.overrides["eko.io.metadata.Metadata.load"] = lambda p_, a, k: metadata(a[-1] if isinstance(a[-1], fs.Path) else fs.Path(str(a[-1])))
+    work = fs.path("/work")
+    work.mkdir()
+    fs.path("/out").mkdir()
+    fs.path("/dest").mkdir()
+    wacc = Obj(acls)
+    wacc.attrs.update(path=fs.path("/out/a.tar"), readonly=False, open=True)
+    invs = pe.call("eko.io.struct.inventories", [work, wacc])
+    for inv in invs.values():
+        inv.attrs["path"].mkdir(parents=True, exist_ok=True)
+    md = metadata(work)
+    writer = pe.new_object(ekoc, [], dict(invs, metadata=md, access=wacc))
+    pe.apply(bound(writer, "__setitem__"), [ep_old, operator("A")], {})
+    pe.apply(bound(md, "update"), [], {})
+    pe.apply(bound(writer, "dump"), [], {})
+    fread = ekoc.methods["read"]
+    n_open = 0
+    for label, args, kw in (("read(archive)", [fs.path("/out/a.tar")], {}),
+                            ("read(archive, dest=folder)", [fs.path("/out/a.tar")], {"dest": fs.path("/dest")}),
+                            ("read(extracted folder, extract=False)", [work], {"extract": False}),
+                            ("read(archive, readonly=True)", [fs.path("/out/a.tar")], {"readonly": True}),
+                            ("read(extracted folder, extract=False, readonly=True)", [work], {"extract": False, "readonly": True})):
+        try:
+            e = pe.apply(pe.getattr(ClassRef(ekoc), "read"), list(args), dict(kw))
+        except PERaise as ex:
+            chk.fail("opened-without-write-access-is-read-only", fread.qname, f"EKO.{label} raises {ex}", where=fread.where, instance=label)
+            continue
+        n_open += 1
+        acc_ = e.attrs["access"].attrs
+        before = dict(fs.files)
+        mark = len(fs.log)
+        raised = None
+        try:
+            pe.apply(bound(e, "__setitem__"), [ep_new, operator("N")], {})
+        except PERaise as ex:
+            raised = ex.etype
+        touched = [ev for ev in fs.log[mark:] if ev[0] != "read"]
+        chk.decide(acc_.get("readonly") is True and acc_.get("open") is True and raised == "ReadOnlyOperator" and fs.files == before and not touched,
+                   "opened-without-write-access-is-read-only", fread.qname,
+                   f"EKO.{label}: the object is readonly={acc_.get('readonly')}, open={acc_.get('open')}; storing a new operator "
+                   f"{'raises ' + raised if raised else 'is accepted'} and performs {touched[:2] or 'no file operation'}; required a read-only object "
+                   f"whose stores raise ReadOnlyOperator and touch nothing", where=fread.where, instance=label, how="PE of EKO.read on a model file system")
+        fs.files.clear()
+        fs.files.update(before)
+    chk.floor("ways of opening an EKO read-only", n_open, 5)
